@@ -207,6 +207,9 @@ class global_variables():
 
         if N is not None:
             self.N = N
+
+        if self.N is not None: # (re)compute the grids with the values now in force, also when `N` was set by a previous call
+            N = self.N
             self.t = np.linspace(0, N*self.sps*self.dt, N*self.sps, endpoint=True)
             self.dw = 2*pi*self.fs/(N*self.sps)
             self.w = 2*pi*fftshift(fftfreq(N*self.sps))*self.fs
